@@ -70,7 +70,7 @@ def run(ck):
     rng = random.Random(ck.seed * 7919 + 6)
     stats = {}
     corpus = tl.load_corpus("C06")
-    cases = list(corpus) + tl.failure_cases(rng, 60 if thorough else 14, stats, maxlen=6 if thorough else 5)
+    cases = list(corpus) + tl.failure_cases(rng, 40 if thorough else 24, stats, maxlen=6 if thorough else 5)
     combos = [(d, m) for d in tl.DETAILS for m in tl.MODES]
     texts, kept = [], []
     counts = collections.Counter()
